@@ -61,9 +61,11 @@ prop("C01",
      title="RDB parsing delivers every key exactly, whatever its encoding",
      quick=[{"re": "^TestC01$", "checks": 4000},
             {"re": "^TestC01Big$", "checks": 7},
+            {"re": "^TestC01BigThree$", "checks": 2},
             {"re": "^TestC01BigOther$", "checks": 4}],
      thorough=[{"re": "^TestC01$", "checks": 400000, "shards": 8, "timeout": 1500},
                {"re": "^TestC01Big$", "checks": 240, "shards": 6, "timeout": 1500},
+               {"re": "^TestC01BigThree$", "checks": 60, "shards": 3, "timeout": 1500},
                {"re": "^TestC01BigOther$", "checks": 120, "shards": 3, "timeout": 1500},
                {"re": "^$", "fuzz": "^FuzzC01$", "fuzztime": "120s", "checks": 1, "exclusive": True, "timeout": 500}],
      rule="RDB files written by the harness' own RDB writer from a drawn logical keyspace: 0-4 databases (numbers up to 70000, "
@@ -200,9 +202,11 @@ prop("C02",
      title="Restoring an entry leaves the target key equal to the source key",
      quick=[{"re": "^TestC02$", "checks": 5000},
             {"re": "^TestC02Chunked$", "checks": 6},
+            {"re": "^TestC02ChunkedThree$", "checks": 2},
             {"re": "^TestC02Lua$", "checks": 200}],
      thorough=[{"re": "^TestC02$", "checks": 1200000, "shards": 12, "timeout": 1700},
                {"re": "^TestC02Chunked$", "checks": 400, "shards": 5, "timeout": 1700},
+               {"re": "^TestC02ChunkedThree$", "checks": 60, "shards": 3, "timeout": 1700},
                {"re": "^TestC02Lua$", "checks": 20000, "timeout": 1700}],
      rule="entry x configuration x target state. Entry: every type/encoding of the RDB generator (incl. stream, quicklist, zipmap, ziplist, intset, "
           "LZF), collection sizes at 1,2,3,63-65,99-101,199-201,300, expiry none/past/future against the shifted clock, idle/freq hints, keys with "
